@@ -165,18 +165,24 @@ where
                     .await;
             match message {
                 WorkerInboxMessage::Connection(connection) => {
+                    #[cfg(pavex_verif)]
+                    super::verif_trace::gate("after_recv", id as u64);
                     Self::handle_connection(
                         connection,
                         handler,
                         application_state.clone(),
                         &shutdown_coordinator,
                     );
+                    #[cfg(pavex_verif)]
+                    super::verif_trace::gate("after_spawn", id as u64);
                 }
                 WorkerInboxMessage::Shutdown(shutdown) => {
                     let ShutdownWorkerCommand {
                         completion_notifier,
                         mode,
                     } = shutdown;
+                    #[cfg(pavex_verif)]
+                    super::verif_trace::gate("after_shutdown", id as u64);
                     match mode {
                         ShutdownMode::Graceful { timeout } => {
                             // Stop accepting new connections.
@@ -187,6 +193,7 @@ where
                             {
                                 verif_log.push("w_close", id as u64, 0);
                                 drop(verif_log);
+                                super::verif_trace::gate("after_close", id as u64);
                             }
 
                             // Kick-off work for all pending connections.
@@ -203,10 +210,14 @@ where
                                     application_state.clone(),
                                     &shutdown_coordinator,
                                 );
+                                #[cfg(pavex_verif)]
+                                super::verif_trace::gate("after_drain", id as u64);
                             }
 
                             #[cfg(pavex_verif)]
                             super::verif_trace::record("w_drain_end", id as u64, 0);
+                            #[cfg(pavex_verif)]
+                            super::verif_trace::gate("after_drain_end", id as u64);
 
                             // Give the connections we have just kicked off a chance to run once
                             // before asking them to shut down: a connection that has not been
@@ -215,6 +226,8 @@ where
                             tokio::task::yield_now().await;
 
                             // Wait for all live connections to be closed or for the timeout to expire.
+                            #[cfg(pavex_verif)]
+                            super::verif_trace::gate("before_signal", id as u64);
                             #[cfg(pavex_verif)]
                             super::verif_trace::record("w_signal", id as u64, 0);
                             #[cfg(pavex_verif)]
@@ -231,6 +244,8 @@ where
                         }
                         ShutdownMode::Forced => {}
                     }
+                    #[cfg(pavex_verif)]
+                    super::verif_trace::gate("before_notify", id as u64);
                     #[cfg(pavex_verif)]
                     let mut verif_log = super::verif_trace::lock();
                     let _ = completion_notifier.send(());
